@@ -36,7 +36,9 @@ Definition update_default_config_policy : policy_t :=
         fold_left (fun pol o => policy_prepend pol o cs) ops pol
     end) policy_ops_per_config [].
 
-Definition DEFAULT_CONFIG_CHECK_POLICY : policy_t := update_default_config_policy.
+(* evaluated once here so that later vm_compute runs see a literal table *)
+Definition DEFAULT_CONFIG_CHECK_POLICY : policy_t :=
+  Eval vm_compute in update_default_config_policy.
 
 (* ---- AlgorithmManagerApi ---- *)
 Definition is_algorithm_registered (a : akey) : bool :=
